@@ -72,6 +72,205 @@ theorem c19_refines_clock :
       all_goals (try dsimp only)
       all_goals (first | omega | (unfold dec8; omega))
 
+
+/-! ### NRx4 refines the documented machine -/
+
+/-- the frequency-sweep calculation of channel 1 on a 16-bit register (as in `calculateFrequency`) -/
+def sweepCalc (inc : Bool) (f sh : Nat) : Nat :=
+  if !inc then (f + (65536 - (f >>> sh)) % 65536) % 65536 else (f + (f >>> sh)) % 65536
+
+/-- for an 11-bit frequency the 16-bit calculation is the documented f ± (f >> shift) -/
+theorem sweepCalc_doc (inc : Bool) (f sh : Nat) (hf : f < 2048) :
+    sweepCalc inc f sh = if inc then f + (f >>> sh) else f - (f >>> sh) := by
+  have hle := Nat.shiftRight_le f sh
+  unfold sweepCalc
+  generalize f >>> sh = x at hle
+  cases inc
+  · simp only [Bool.not_false, if_true, Bool.false_eq_true, if_false]; omega
+  · simp only [Bool.not_true, Bool.false_eq_true, if_false, if_true]; omega
+
+/-- status of a square right after a trigger: DAC on and (channel 1, shift ≠ 0) no sweep overflow -/
+def sqTrigOk (s : Square) : Bool :=
+  s.dacEnabled && (!s.hasSweep || !decide (s.sweepShift > 0) || decide (sweepCalc s.sweepIncrease s.frequency s.sweepShift ≤ 2047))
+def wvTrigOk (w : Wave) : Bool := w.dacEnabled
+def nsTrigOk (n : Noise) : Bool := n.dacEnabled
+
+private theorem sq_trig_fields (s : Square) :
+    s.trigger.length = (if s.length = 0 then 64 else s.length) ∧ s.trigger.lengthEnable = s.lengthEnable ∧
+    s.trigger.enabled = sqTrigOk s := by
+  unfold Square.trigger Square.dacGate Square.triggerSweep Square.trigBase sqTrigOk sweepCalc
+  cases hs : s.hasSweep
+  · simp
+  · by_cases h : s.sweepShift > 0
+    · simp [h, Square.sweepReload, Square.calcState, Square.calcValue, Bool.and_comm]
+    · simp [h, Square.sweepReload]
+
+private theorem wv_trig_fields (w : Wave) :
+    w.trigger.length = (if w.length = 0 then 256 else w.length) ∧ w.trigger.lengthEnable = w.lengthEnable ∧
+    w.trigger.enabled = wvTrigOk w := by
+  unfold Wave.trigger Wave.trigBody Wave.trigHead wvTrigOk
+  refine ⟨?_, ?_, ?_⟩ <;> (repeat' split) <;> rfl
+
+private theorem ns_trig_fields (n : Noise) :
+    n.trigger.length = (if n.length = 0 then 64 else n.length) ∧ n.trigger.lengthEnable = n.lengthEnable ∧
+    n.trigger.enabled = nsTrigOk n := ⟨rfl, rfl, rfl⟩
+
+private theorem sq_extra (s : Square) (fs : Nat) (le tr : Bool) (h : s.length ≤ 64) :
+    sqLen (s.extraLenClock fs le tr) =
+      ⟨(if (!s.lengthEnable && le && decide (s.length > 0) && decide (fs % 2 = 1)) = true then s.enabled && !(decide (s.length - 1 = 0) && !tr) else s.enabled),
+       s.lengthEnable,
+       (if (!s.lengthEnable && le && decide (s.length > 0) && decide (fs % 2 = 1)) = true then s.length - 1 else s.length)⟩ := by
+  unfold Square.extraLenClock sqLen
+  by_cases c : (!s.lengthEnable && le && decide (s.length > 0) && decide (fs % 2 = 1)) = true
+  · have hp : s.length > 0 := by simp at c; omega
+    simp only [c, if_true, dec8_sub s.length hp (by omega)]
+  · simp [c]
+
+/-- NRx4 on a square channel refines the documented machine (outside the documented-open corner) -/
+private theorem sq_nrx4 (s0 : Square) (fs v : Nat) (h0 : s0.length ≤ 64)
+    (hc : ¬ Len.fullRetrigger 64 (sqLen s0) (leOf v) (trigOf v) (decide (fs % 2 = 1))) :
+    sqLen (s0.writeNRx4 fs v) =
+      Len.writeNRx4 64 (sqLen s0) (leOf v) (trigOf v) (decide (fs % 2 = 1)) (sqTrigOk (s0.setFreqHi v)) := by
+  have hpre : sqLen (s0.setFreqHi v) = sqLen s0 := rfl
+  have h : (s0.setFreqHi v).length ≤ 64 := h0
+  rw [← hpre] at hc ⊢
+  unfold Square.writeNRx4 Square.setLE Square.trigPart
+  generalize s0.setFreqHi v = s at *
+  generalize hle : leOf v = le at *
+  generalize htr : trigOf v = tr at *
+  have hok' : sqTrigOk (s.extraLenClock fs le tr) = sqTrigOk s := by
+    unfold Square.extraLenClock; split <;> rfl
+  have hx' := sq_extra s fs le tr h
+  generalize s.extraLenClock fs le tr = x at hx' hok'
+  simp only [sqLen, Len.mk.injEq] at hx'
+  obtain ⟨x1, x2, x3⟩ := hx'
+  obtain ⟨t1, t2, t3⟩ := sq_trig_fields x
+  have e1 : (x.trigger.trigLenClock fs le).enabled = sqTrigOk x := by
+    unfold Square.trigLenClock; split <;> exact t3
+  have e2 : (x.trigger.trigLenClock fs le).length =
+      if (le && decide (x.trigger.length = 64) && decide (fs % 2 = 1)) = true then dec8 x.trigger.length else x.trigger.length := by
+    unfold Square.trigLenClock; split <;> rfl
+  have hcorner : ¬ (tr = true ∧ le = true ∧ (fs % 2 = 1) ∧ s.lengthEnable = true ∧ s.length = 64) := by
+    intro ⟨a1, a2, a3, a4, a5⟩; apply hc
+    exact ⟨a1, a2, by simp [a3], a4, a5⟩
+  simp only [sqLen, Len.writeNRx4]
+  rw [hok'] at e1
+  rcases Bool.eq_false_or_eq_true s.lengthEnable with hl | hl <;> cases le <;> by_cases f : fs % 2 = 1 <;> by_cases z : s.length > 0 <;> cases tr <;>
+    simp [hl, f, z] at x1 x3 hcorner ⊢ <;>
+    (try simp [e1, e2, t1, x1, x3, f, dec8])
+  all_goals (repeat' split)
+  all_goals omega
+
+private theorem wv_extra (s : Wave) (fs : Nat) (le tr : Bool) (h : s.length ≤ 256) :
+    wvLen (s.extraLenClock fs le tr) =
+      ⟨(if (!s.lengthEnable && le && decide (s.length > 0) && decide (fs % 2 = 1)) = true then s.enabled && !(decide (s.length - 1 = 0) && !tr) else s.enabled),
+       s.lengthEnable,
+       (if (!s.lengthEnable && le && decide (s.length > 0) && decide (fs % 2 = 1)) = true then s.length - 1 else s.length)⟩ := by
+  unfold Wave.extraLenClock wvLen
+  by_cases c : (!s.lengthEnable && le && decide (s.length > 0) && decide (fs % 2 = 1)) = true
+  · have hp : s.length > 0 := by simp at c; omega
+    simp only [c, if_true, dec16_sub s.length hp (by omega)]
+  · simp [c]
+
+/-- NRx4 on the wave channel refines the documented machine (outside the documented-open corner) -/
+private theorem wv_nrx4 (s0 : Wave) (fs v : Nat) (h0 : s0.length ≤ 256)
+    (hc : ¬ Len.fullRetrigger 256 (wvLen s0) (leOf v) (trigOf v) (decide (fs % 2 = 1))) :
+    wvLen (s0.writeNR34 fs v) =
+      Len.writeNRx4 256 (wvLen s0) (leOf v) (trigOf v) (decide (fs % 2 = 1)) (wvTrigOk (s0.setFreqHi v)) := by
+  have hpre : wvLen (s0.setFreqHi v) = wvLen s0 := rfl
+  have h : (s0.setFreqHi v).length ≤ 256 := h0
+  rw [← hpre] at hc ⊢
+  unfold Wave.writeNR34 Wave.setLE Wave.trigPart
+  generalize s0.setFreqHi v = s at *
+  generalize hle : leOf v = le at *
+  generalize htr : trigOf v = tr at *
+  have hok' : wvTrigOk (s.extraLenClock fs le tr) = wvTrigOk s := by
+    unfold Wave.extraLenClock wvTrigOk; split <;> rfl
+  have hx' := wv_extra s fs le tr h
+  generalize s.extraLenClock fs le tr = x at hx' hok'
+  simp only [wvLen, Len.mk.injEq] at hx'
+  obtain ⟨x1, x2, x3⟩ := hx'
+  obtain ⟨t1, t2, t3⟩ := wv_trig_fields x
+  have e1 : (x.trigger.trigLenClock fs le).enabled = wvTrigOk x := by
+    unfold Wave.trigLenClock; split <;> exact t3
+  have e2 : (x.trigger.trigLenClock fs le).length =
+      if (le && decide (x.trigger.length = 256) && decide (fs % 2 = 1)) = true then dec16 x.trigger.length else x.trigger.length := by
+    unfold Wave.trigLenClock; split <;> rfl
+  have hcorner : ¬ (tr = true ∧ le = true ∧ (fs % 2 = 1) ∧ s.lengthEnable = true ∧ s.length = 256) := by
+    intro ⟨a1, a2, a3, a4, a5⟩; apply hc
+    exact ⟨a1, a2, by simp [a3], a4, a5⟩
+  simp only [wvLen, Len.writeNRx4]
+  rw [hok'] at e1
+  rcases Bool.eq_false_or_eq_true s.lengthEnable with hl | hl <;> cases le <;> by_cases f : fs % 2 = 1 <;> by_cases z : s.length > 0 <;> cases tr <;>
+    simp [hl, f, z] at x1 x3 hcorner ⊢ <;>
+    (try simp [e1, e2, t1, x1, x3, f, dec16])
+  all_goals (repeat' split)
+  all_goals omega
+
+private theorem ns_extra (s : Noise) (fs : Nat) (le tr : Bool) (h : s.length ≤ 64) :
+    nsLen (s.extraLenClock fs le tr) =
+      ⟨(if (!s.lengthEnable && le && decide (s.length > 0) && decide (fs % 2 = 1)) = true then s.enabled && !(decide (s.length - 1 = 0) && !tr) else s.enabled),
+       s.lengthEnable,
+       (if (!s.lengthEnable && le && decide (s.length > 0) && decide (fs % 2 = 1)) = true then s.length - 1 else s.length)⟩ := by
+  unfold Noise.extraLenClock nsLen
+  by_cases c : (!s.lengthEnable && le && decide (s.length > 0) && decide (fs % 2 = 1)) = true
+  · have hp : s.length > 0 := by simp at c; omega
+    simp only [c, if_true, dec8_sub s.length hp (by omega)]
+  · simp [c]
+
+/-- NRx4 on the noise channel refines the documented machine (outside the documented-open corner) -/
+private theorem ns_nrx4 (s0 : Noise) (fs v : Nat) (h0 : s0.length ≤ 64)
+    (hc : ¬ Len.fullRetrigger 64 (nsLen s0) (leOf v) (trigOf v) (decide (fs % 2 = 1))) :
+    nsLen (s0.writeNR44 fs v) =
+      Len.writeNRx4 64 (nsLen s0) (leOf v) (trigOf v) (decide (fs % 2 = 1)) (nsTrigOk (s0)) := by
+  have hpre : nsLen (s0) = nsLen s0 := rfl
+  have h : (s0).length ≤ 64 := h0
+  rw [← hpre] at hc ⊢
+  unfold Noise.writeNR44 Noise.setLE Noise.trigPart
+  generalize s0 = s at *
+  generalize hle : leOf v = le at *
+  generalize htr : trigOf v = tr at *
+  have hok' : nsTrigOk (s.extraLenClock fs le tr) = nsTrigOk s := by
+    unfold Noise.extraLenClock; split <;> rfl
+  have hx' := ns_extra s fs le tr h
+  generalize s.extraLenClock fs le tr = x at hx' hok'
+  simp only [nsLen, Len.mk.injEq] at hx'
+  obtain ⟨x1, x2, x3⟩ := hx'
+  obtain ⟨t1, t2, t3⟩ := ns_trig_fields x
+  have e1 : (x.trigger.trigLenClock fs le).enabled = nsTrigOk x := by
+    unfold Noise.trigLenClock; split <;> exact t3
+  have e2 : (x.trigger.trigLenClock fs le).length =
+      if (le && decide (x.trigger.length = 64) && decide (fs % 2 = 1)) = true then dec8 x.trigger.length else x.trigger.length := by
+    unfold Noise.trigLenClock; split <;> rfl
+  have hcorner : ¬ (tr = true ∧ le = true ∧ (fs % 2 = 1) ∧ s.lengthEnable = true ∧ s.length = 64) := by
+    intro ⟨a1, a2, a3, a4, a5⟩; apply hc
+    exact ⟨a1, a2, by simp [a3], a4, a5⟩
+  simp only [nsLen, Len.writeNRx4]
+  rw [hok'] at e1
+  rcases Bool.eq_false_or_eq_true s.lengthEnable with hl | hl <;> cases le <;> by_cases f : fs % 2 = 1 <;> by_cases z : s.length > 0 <;> cases tr <;>
+    simp [hl, f, z] at x1 x3 hcorner ⊢ <;>
+    (try simp [e1, e2, t1, x1, x3, f, dec8])
+  all_goals (repeat' split)
+  all_goals omega
+
+/-- **C19 (refinement, NRx4).**  The NRx4 handlers of all four channels – frequency bits, the extra
+    length clock in the first half of a frame-sequencer period, trigger with reload of an expired
+    counter, length enable – are the documented machine `Len.writeNRx4`, with the status after a
+    trigger = DAC enabled (∧ no sweep overflow for channel 1); excluded is only the corner the
+    documentation leaves open (`Len.fullRetrigger`: trigger in the first half with length already
+    enabled and the counter exactly full, where the code clocks the counter once). -/
+theorem c19_refines_nrx4 :
+    (∀ (s : Square) (fs v : Nat), s.length ≤ 64 →
+      ¬ Len.fullRetrigger 64 (sqLen s) (leOf v) (trigOf v) (decide (fs % 2 = 1)) →
+      sqLen (s.writeNRx4 fs v) = Len.writeNRx4 64 (sqLen s) (leOf v) (trigOf v) (decide (fs % 2 = 1)) (sqTrigOk (s.setFreqHi v))) ∧
+    (∀ (w : Wave) (fs v : Nat), w.length ≤ 256 →
+      ¬ Len.fullRetrigger 256 (wvLen w) (leOf v) (trigOf v) (decide (fs % 2 = 1)) →
+      wvLen (w.writeNR34 fs v) = Len.writeNRx4 256 (wvLen w) (leOf v) (trigOf v) (decide (fs % 2 = 1)) w.dacEnabled) ∧
+    (∀ (n : Noise) (fs v : Nat), n.length ≤ 64 →
+      ¬ Len.fullRetrigger 64 (nsLen n) (leOf v) (trigOf v) (decide (fs % 2 = 1)) →
+      nsLen (n.writeNR44 fs v) = Len.writeNRx4 64 (nsLen n) (leOf v) (trigOf v) (decide (fs % 2 = 1)) n.dacEnabled) :=
+  ⟨sq_nrx4, wv_nrx4, ns_nrx4⟩
+
 /-! ### the documented machine keeps a channel on for exactly `count` length clocks -/
 
 /-- **C19 (exact length, documented machine).**  With length enabled and a non-zero counter L the
